@@ -1,0 +1,11 @@
+//! Verification hook (cargo feature `verif`, off by default).
+//!
+//! Add-only re-exports of crate-private modules so that an external harness can call
+//! the simplification portfolios, the equivalence-breaking pass, the verification tasks,
+//! the problem type, the prover status parser and the file sorter in-process.
+//! Nothing here changes behaviour.
+
+pub use crate::breaking::fol as breaking_fol;
+pub use crate::command_line::{arguments, files, procedures};
+pub use crate::simplifying::fol as simplifying_fol;
+pub use crate::verifying::{outline, problem, prover, task};
